@@ -561,6 +561,11 @@ fn eval_cli(ctx: &Ctx, case: &CliCase) -> Verdict {
     let spec = crate::model::spec::Spec::new(case.shape.clone(), values.clone());
     std::fs::write(dir.join("in.sfs"), crate::props::common::text_bytes_exact(&spec)).expect("write");
     let _ = std::fs::remove_file(dir.join("out.npy"));
+    if case.to_file && n % 2 == 0 {
+        // the output path already holds an earlier, longer npy file: it must be replaced, not patched
+        let earlier = crate::props::common::npy_bytes(&crate::model::spec::Spec::new(vec![n + 40], vec![7.0; n + 40]));
+        std::fs::write(dir.join("out.npy"), earlier).expect("write");
+    }
     let bytes = if case.to_file {
         let run = cli::sfs(ctx, &["view", "-O", "npy", "-o", "out.npy", "in.sfs"], Input::Null, &dir);
         ensure!(run.ok() && run.stdout.is_empty(), "view -O npy -o on shape {:?}: {}", case.shape, run.describe());
@@ -573,7 +578,7 @@ fn eval_cli(ctx: &Ctx, case: &CliCase) -> Verdict {
     let bits: Vec<u64> = values.iter().map(|v| v.to_bits()).collect();
     check_written(&bytes, &case.shape, &bits, "`sfs view -O npy` output")?;
     let residue = unpadded_len(&case.shape) % 64;
-    Ok(Pass::new().nontrivial(true).label(format!("residue={residue:02}")))
+    Ok(Pass::new().nontrivial(true).label(format!("residue={residue:02}")).label(if !case.to_file { "stdout" } else if n % 2 == 0 { "-o onto an existing longer file" } else { "-o fresh file" }))
 }
 
 pub fn npy_fuzz_seeds() -> Vec<Vec<u8>> {
